@@ -216,6 +216,9 @@ pub enum TOp {
 pub enum Op {
     /// begin_write, ops, then commit (or drop without commit)
     Txn { ops: Vec<TOp>, commit: bool },
+    /// begin_write, ops, one property value above the log-record limit on `target`, commit:
+    /// the commit must fail and leave no trace
+    FailingTxn { ops: Vec<TOp>, target: u32 },
     Compact,
     CreateIndex { label: String, prop: String },
     /// close() (checkpoint-on-close) and open again
@@ -231,6 +234,7 @@ impl Op {
         match self {
             Op::Txn { commit: true, .. } => "txn",
             Op::Txn { commit: false, .. } => "abandon",
+            Op::FailingTxn { .. } => "failed_commit",
             Op::Compact => "compact",
             Op::CreateIndex { .. } => "create_index",
             Op::CloseReopen => "close_reopen",
